@@ -95,3 +95,45 @@ Proof.
 Qed.
 
 End RingProps.
+
+(* ---------------------------------------------------------------------------------------------------------------
+   Counting consequences used by the pool allocator (C13): the ring never duplicates a value *)
+Section RingCount.
+Variable N : Z.
+Hypothesis Npos : 0 < N.
+Local Notation run evs := (fold_left (execZ N) evs init).
+
+Lemma count_firstn_le (v : Z) (l : list Z) n : (count_occ Z.eq_dec (firstn n l) v <= count_occ Z.eq_dec l v)%nat.
+Proof.
+  rewrite <- (firstn_skipn n l) at 2. rewrite count_occ_app. lia.
+Qed.
+
+(* every hand-out of a value is matched by a distinct earlier publication of that value *)
+Theorem handed_out_le_published evs v :
+  let l := log (run evs) in (count_occ Z.eq_dec (yielded_of l) v <= count_occ Z.eq_dec (accepted_of l) v)%nat.
+Proof. cbn zeta. rewrite (yielded_prefix N Npos evs). apply count_firstn_le. Qed.
+
+(* if every published copy of v has already been handed out, the next element handed out is not v *)
+Theorem next_is_not_exhausted_value evs v :
+  let s := run evs in
+  head s < tail s ->
+  count_occ Z.eq_dec (delivered s) v = count_occ Z.eq_dec (published s) v ->
+  nthz (published s) (head s) <> v.
+Proof.
+  cbn zeta. intros Hlt Hc. pose proof (inv_reachable N Npos evs) as I. set (s := run evs) in *.
+  pose proof (i_deliv _ _ I) as Hd. pose proof (i_lenp _ _ I) as Hlp. pose proof (i_ord _ _ I) as Ho.
+  rewrite Hd in Hc. rewrite <- (firstn_skipn (Z.to_nat (head s)) (published s)) in Hc at 2.
+  rewrite count_occ_app in Hc.
+  assert (Hz : count_occ Z.eq_dec (skipn (Z.to_nat (head s)) (published s)) v = 0%nat) by lia.
+  intros E. apply (proj2 (count_occ_not_In Z.eq_dec _ v)) in Hz. apply Hz.
+  unfold nthz in E. rewrite <- E.
+  rewrite <- (firstn_skipn (Z.to_nat (head s)) (published s)) at 1.
+  rewrite app_nth2; rewrite firstn_length; [|lia].
+  replace (Z.to_nat (head s) - Nat.min (Z.to_nat (head s)) (length (published s)))%nat with 0%nat by lia.
+  destruct (skipn (Z.to_nat (head s)) (published s)) eqn:Es.
+  - exfalso. assert (length (skipn (Z.to_nat (head s)) (published s)) = 0%nat) by now rewrite Es.
+    rewrite skipn_length in H. lia.
+  - cbn. now left.
+Qed.
+
+End RingCount.
